@@ -54,6 +54,7 @@ from mc import seams
 
 PROPERTY = 'C18'
 GUARD = ['numqi.state', 'numqi.entangle.upb']  # argument-immutability oracle (mc.seams.ImmutabilityGuard)
+GUARD_LAYOUT = ['numqi.state', 'numqi.entangle.upb']  # memory-layout metamorphic oracle (same wrapper)
 LEVEL = 'model_checking'
 RULE = ('mode P: case = (constructor family, size argument); inside a case the complete argument lattice is executed (all klists, '
         'all coefficient patterns, all grid parameters incl. both end points and the floats adjacent to every threshold, all option '
